@@ -6,8 +6,8 @@
     another owner or ask the cloud provider to unassign it."
 
     Property theorems only; the proofs are in Proofs/PluginP.v (assembly), Proofs/PluginEnvP.v,
-    Proofs/PluginBindP.v, Proofs/PluginUnbindP.v (one file per kind of step) and Proofs/PluginWitness.v
-    (concrete histories).
+    Proofs/PluginBindP.v, Proofs/PluginUnbindP.v (one file per kind of step), Proofs/PluginWitness.v
+    (concrete histories) and Proofs/PluginStaleP.v (pod-IP sync with an earlier pod object).
 
     Quantifier: ALL histories [ops : list pop] of the scheduler-plugin model (Model/Plugin.v) that start in
     the empty world [world0 provider nodes] (with or without cloud provider, any node table): any
@@ -28,14 +28,17 @@
       - the only crdIpam-level operation is a configuration reload whose deletions of de-configured
         objects all succeed; a reload and a restart keep every IP configured that a not-finished pod of
         the API server holds in its binding annotation;
-      - nothing else: filter, event, resync, pod-IP sync steps and all other environment steps are
-        unconstrained. *)
+      - a pod-IP sync ([PSyncPod p]) is handed a pod object [p] whose names and UID are as above ([wf_pod]), and
+        ANY such object: the informer's current object of that name, or an object the informer or the API server
+        showed at an earlier point of the history - an earlier incarnation of a pod that has been deleted and
+        created again under its name since ([pod_sync_object_current], [pod_sync_object_earlier] below);
+      - nothing else: filter, event, resync steps and all other environment steps are unconstrained. *)
 From Coq Require Import String.
 From stdpp Require Import gmap.
 From Galaxy.Base Require Import Strs.
 From Galaxy.Model Require Import Nets Pool Ipam Plugin.
 From Galaxy.Model Require Keys.
-From Galaxy.Proofs Require Import IpamP PluginInv PluginUnbindP PluginP PluginWitness.
+From Galaxy.Proofs Require Import IpamP PluginInv PluginUnbindP PluginP PluginWitness PluginStaleP.
 Local Open Scope N_scope.
 
 (** in every reachable world, every pod of the API server that was bound and has not finished owns
@@ -133,3 +136,99 @@ Theorem witnesses_harmless_now :
   ¬ violates_c04 (prun (world0 false nodes1) h_f2) ∧ ¬ violates_c04 (prun (world0 false nodes1) h_f13).
 Proof. exact (conj wf_hist_harmless witnesses_harmless). Qed.
 Print Assumptions witnesses_harmless_now.
+
+(** ** pod-IP sync with a pod object listed or queued earlier (F16)
+    syncPodIP is handed a pod OBJECT: the periodic pass lists the informer's pods and then walks the list, a pod update
+    handler runs some time after its event was queued.  The step [PSyncPod p fl] of the model is the repaired code
+    ([sync_given true], fix 08c3290): holding the pod's lock it asks the informer again, skips an object whose UID is not
+    the one the informer shows now, continues with the informer's current object, and syncs a pod the informer does
+    not show as given.  [sync_given false] is the code before the repair: the given object is used as it is. *)
+
+(** which objects a well-formed history may hand to the sync: (a) the informer's current object ... *)
+Theorem pod_sync_object_current : ∀ w p fl, WInv w → w_lister w !! pk p = Some p → wf_op w (PSyncPod p fl).
+Proof. exact sync_wf_current. Qed.
+Print Assumptions pod_sync_object_current.
+
+(** ... and (b) every object the informer or the API server showed after a prefix of the history, at any later point -
+    whatever happened to the pod of that name since (deleted, created again with a fresh UID, bound to another IP) *)
+Theorem pod_sync_object_earlier : ∀ provider nodes ops1 ops2 k p fl,
+  wf_hist (world0 provider nodes) (ops1 ++ ops2) →
+  w_lister (prun (world0 provider nodes) ops1) !! k = Some p ∨ w_pods (prun (world0 provider nodes) ops1) !! k = Some p →
+  wf_hist (world0 provider nodes) (ops1 ++ ops2 ++ [PSyncPod p fl]).
+Proof. exact sync_wf_earlier. Qed.
+Print Assumptions pod_sync_object_earlier.
+
+(** every live bound pod still owns its IPs after a pod-IP sync with ANY pod object (corollary of [winv_preserved]) *)
+Theorem stale_sync_keeps_owners : ∀ w p fl k q,
+  WInv w → wf_op w (PSyncPod p fl) → w_pods w !! k = Some q → live_bound q →
+  owned (w_ipam (sync_given true w p fl)) q.
+Proof. exact PluginStaleP.stale_sync_keeps_owners. Qed.
+Print Assumptions stale_sync_keeps_owners.
+
+(** an object of another incarnation than the one the informer shows is skipped: the world does not change *)
+Theorem stale_sync_skipped : ∀ w p cur fl,
+  w_lister w !! pk p = Some cur → pd_uid cur ≠ pd_uid p → sync_given true w p fl = w.
+Proof. exact sync_given_stale. Qed.
+Print Assumptions stale_sync_skipped.
+
+(** F16: the behaviour before the repair breaks the property on a reachable world (the history the real code ran,
+    Proofs/PluginStaleP.v [h_f16]).  Statefulset pod web-0 (uid uA, requesting 10.100.0.3) is created, seen, filtered,
+    bound on node1, runs and is seen running by the informer - [pa] is that object; it is deleted, the informer sees
+    it, the delete event is handled (10.100.0.3 released, default policy); web-0 (uid uB, requesting 10.100.0.5) is
+    created, seen, filtered, bound, runs - [q].  The sync with [pa] takes 10.100.0.3 back under the shared key, stored
+    for uA; the resync item of 10.100.0.3 finds "pod (uA) not running" and releases every IP of the key: 10.100.0.5 of
+    the running pod is free.  With the repair the same continuation leaves [q] the owner. *)
+Theorem stale_sync_refuted_old : ∃ nodes ops ops1 pa q x o ocl,
+  wf_hist (world0 false nodes) (ops1 ++ ops) ∧
+  let w := prun (world0 false nodes) (ops1 ++ ops) in
+  (* [pa] is an earlier object of the pod of that name: Running, annotated with its IP [x] *)
+  w_lister (prun (world0 false nodes) ops1) !! pk pa = Some pa ∧ pd_phase pa = 1 ∧ pd_ips pa = [x] ∧
+  wf_op w (PSyncPod pa no_faults) ∧
+  (* [q] is the pod of that name now: another incarnation, live, bound to another IP, owning it *)
+  w_pods w !! pk q = Some q ∧ w_lister w !! pk q = Some q ∧ pk q = pk pa ∧ pd_uid q ≠ pd_uid pa ∧ x ∉ pd_ips q ∧
+  live_bound q ∧ owned (w_ipam w) q ∧
+  (* old behaviour: after the sync with [pa] and the resync item of [x] (not stuck), [q] no longer owns its IP *)
+  (resync_section (sync_given false w pa no_faults) x o ocl no_faults).2 = SOk ∧
+  ¬ owned (w_ipam (resync_section (sync_given false w pa no_faults) x o ocl no_faults).1) q ∧
+  (∀ y, y ∈ pd_ips q → i_alloc (w_ipam (resync_section (sync_given false w pa no_faults) x o ocl no_faults).1) !! y = None) ∧
+  (* repaired behaviour, same continuation: [q] keeps it *)
+  (resync_section (sync_given true w pa no_faults) x o ocl no_faults).2 = SOk ∧
+  owned (w_ipam (resync_section (sync_given true w pa no_faults) x o ocl no_faults).1) q.
+Proof. exact stale_sync_refuted_old_l. Qed.
+Print Assumptions stale_sync_refuted_old.
+
+(** the same history continued with the repaired step and the resync item is well-formed; the sync step changes
+    nothing; pod web-0 (uB) still holds 10.100.0.5 under its key for its UID *)
+Theorem stale_sync_repaired :
+  let w := prun (world0 false nodes1) h_f16 in
+  (pstep w (PSyncPod pod_a no_faults)).1 = w ∧
+  wf_hist (world0 false nodes1) (h_f16 ++ [PSyncPod pod_a no_faults; PResync ip3 o_f16 [] no_faults]) ∧
+  let w' := prun (world0 false nodes1) (h_f16 ++ [PSyncPod pod_a no_faults; PResync ip3 o_f16 [] no_faults]) in
+  w_pods w' !! pk pod_b = Some pod_b ∧ live_bound pod_b ∧ owned (w_ipam w') pod_b ∧
+  ∃ e, i_alloc (w_ipam w') !! ip5 = Some e ∧ e_key e = pod_key pod_b ∧ e_uid e = pd_uid pod_b.
+Proof. exact stale_sync_repaired_on_witness. Qed.
+Print Assumptions stale_sync_repaired.
+
+(** non-vacuity of the sync clause of [wf_op]: a reachable world and an object of an earlier incarnation (its UID is not
+    the one the informer shows; Running, with an IP annotated) that a well-formed history hands to the sync *)
+Example stale_sync_nonvacuous : ∃ nodes ops p cur,
+  let w := prun (world0 false nodes) ops in
+  wf_hist (world0 false nodes) (ops ++ [PSyncPod p no_faults]) ∧
+  w_lister w !! pk p = Some cur ∧ pd_uid cur ≠ pd_uid p ∧ pd_phase p = 1 ∧ pd_ips p ≠ [] ∧
+  wf_op w (PSyncPod p no_faults).
+Proof. exact stale_sync_nonvacuous_l. Qed.
+Print Assumptions stale_sync_nonvacuous.
+
+(** remark: "a pod the informer does not show is synced as given".  After web-0 (uA) is gone and its IP released, the
+    sync with the earlier object takes 10.100.0.3 back under the pod's key for uA; no pod of that name exists, so no
+    live pod's ownership is concerned and the invariant holds; the resync item of the IP finds no running pod and
+    releases it again *)
+Theorem stale_sync_of_gone_pod :
+  let w := prun (world0 false nodes1) h_f16_gone in
+  wf_hist (world0 false nodes1) (h_f16_gone ++ [PSyncPod pod_a no_faults; PResync ip3 (orc None None [ip3]) [] no_faults]) ∧
+  w_lister w !! pk pod_a = None ∧ w_pods w !! pk pod_a = None ∧ i_alloc (w_ipam w) !! ip3 = None ∧
+  (∃ e, i_alloc (w_ipam (pstep w (PSyncPod pod_a no_faults)).1) !! ip3 = Some e ∧ e_key e = pod_key pod_a ∧ e_uid e = pd_uid pod_a) ∧
+  WInv (pstep w (PSyncPod pod_a no_faults)).1 ∧
+  i_alloc (w_ipam (prun w [PSyncPod pod_a no_faults; PResync ip3 (orc None None [ip3]) [] no_faults])) !! ip3 = None.
+Proof. exact stale_sync_gone_pod. Qed.
+Print Assumptions stale_sync_of_gone_pod.
